@@ -13,6 +13,7 @@ representation invariant of the model's numbers (odd mantissa), which every
 number has (`normal_mk`) — it restricts representations, not numbers.
 -/
 import CtyModel.Lemmas.GoctyRoundtrip
+import CtyModel.Lemmas.GoctyFloat
 namespace CtyModel
 namespace C18
 open Gocty
@@ -136,6 +137,64 @@ theorem float_range_witnesses :
     fromNum (.inf false) (.float false) = .ok (.flt (.inf false)) ∧
     fromNum (.fin true 1 (-1075) 64) (.float false) = .ok (.flt (.fin true 0 0 53)) := by
   refine ⟨?_, ?_, ?_, ?_, ?_, ?_, ?_, ?_, ?_, ?_, ?_⟩ <;> rfl
+
+/-- 2^1024 − 2^970: the midpoint between the largest float64 and 2^1024 -/
+def thr64 : Num := .fin false (2 ^ 54 - 1) 970 64
+
+/-- Float64, closed form: a finite number is refused exactly when its magnitude is at
+least 2^1024 − 2^970 (exact comparison `Num.cmp`) — every finite number that
+round-to-nearest-even keeps within the finite range of float64, in particular
+every `|x| ≤ MaxFloat64`, is accepted, everything from the midpoint between
+MaxFloat64 and 2^1024 on is refused.  (For float32 the same is stated by
+`float_ok_iff` through Go's two-step conversion and checked at the edges in
+`float_range_witnesses`; the model has no closed form for the double rounding.) -/
+theorem float64_refused_iff (n : Bool) (m : Nat) (e : Int) (p : Nat) (hx : normalNum (.fin n m e p) = true) :
+    (∃ c, fromNum (.fin n m e p) (.float false) = .err c) ↔ 0 ≤ Num.cmp (Num.abs (.fin n m e p)) thr64 := by
+  have hiff : (∃ c, fromNum (.fin n m e p) (.float false) = .err c) ↔
+      (Num.toF64 (.fin n m e p)).1.isInf = true := by
+    rw [fromNum_float]
+    constructor
+    · rintro ⟨c, hc⟩
+      cases hi : (Num.toF64 (.fin n m e p)).1.isInf with
+      | true => rfl
+      | false =>
+        exfalso
+        have := (fromNumFloat_ok_iff (.fin n m e p) false (Num.toF64 (.fin n m e p)).1).mpr
+          ⟨by simp, Or.inr hi⟩
+        rw [this] at hc; cases hc
+    · intro hi
+      cases hf : fromNumFloat (.fin n m e p) false with
+      | ok f =>
+        obtain ⟨rfl, h2⟩ := (fromNumFloat_ok_iff _ false f).mp hf
+        simp only [Bool.false_eq_true, if_false] at h2
+        rcases h2 with h2 | h2
+        · cases h2
+        · rw [hi] at h2; cases h2
+      | err c => exact ⟨c, rfl⟩
+      | panic w => have := fromNumFloat_isPanic (.fin n m e p) false; rw [hf] at this; cases this
+      | unmodelled =>
+        exfalso
+        unfold fromNumFloat at hf
+        simp only [] at hf
+        split at hf
+        · cases hf
+        · split at hf <;> cases hf
+  rw [hiff]
+  by_cases hm : m = 0
+  · subst hm
+    have he : e = 0 := by simpa [normalNum] using hx
+    subst he
+    have h1 : (Num.toF64 (.fin n 0 0 p)).1.isInf = false := by
+      simp [Num.toF64, Num.toIEEE, Num.norm_zero, Num.isInf]
+    have h2 : Num.cmp (Num.abs (.fin n 0 0 p)) thr64 = -1 := by
+      simp only [Num.abs, thr64, NumCmp.cmp_fin, NumCmp.icmp, NumCmp.sgnm, Num.scaleTo, Bool.false_eq_true, if_false]
+      have hpos : (0:Int) < ((2 ^ 54 - 1 : Nat) : Int) * 2 ^ ((970:Int) - min 0 970).toNat :=
+        Int.mul_pos (by decide) (NumCmp.two_pow_pos _)
+      generalize ((2 ^ 54 - 1 : Nat) : Int) * 2 ^ ((970:Int) - min 0 970).toNat = Y at hpos
+      simp only [Int.natCast_zero, Int.zero_mul, hpos, if_true]
+    rw [h1, h2]; simp
+  · rw [Num.toF64_isInf_iff n m e p hx hm]
+    exact (Num.cmp_thr64_iff m e p 64 hm).symm
 
 /-- a float64/float32 value (the harness' canonical form of one) is decoded to itself -/
 theorem float_exact (x : Num) (is32 : Bool) (h : (if is32 then x.isF32 else x.isF64) = true) :
@@ -329,6 +388,10 @@ example : IsTheInt (Num.ofInt 127) 127 := by simp [IsTheInt, Num.ofInt, Num.mk, 
 example : fromCty ⟨.number, .n (Num.ofInt 127)⟩ (.int .w8 true) = .ok (.int 127) := by rfl
 example : fromCty ⟨.number, .n (Num.ofInt 128)⟩ (.int .w8 true) = .err "whole number" := by rfl
 example : fromCty ⟨.number, .n (Num.mk false 3 (-1) 64)⟩ (.int .w8 false) = .err "whole number" := by rfl
+example : normalNum (.fin true 3 1023 64) = true ∧ 0 ≤ Num.cmp (Num.abs (.fin true 3 1023 64)) thr64 := by
+  refine ⟨by decide, ?_⟩
+  rw [show Num.abs (.fin true 3 1023 64) = .fin false 3 1023 64 from rfl, thr64, Num.cmp_thr64_iff 3 1023 64 64 (by decide)]
+  left; decide
 example : kindOK .string (.s "x") = true ∧ shapeOK .string (GoTy.ptr (.int .w8 true)).base = false := by decide
 example : Value.containsMarked ⟨.list .string, .seq [.s "a", .null]⟩ = false := by decide
 
